@@ -54,6 +54,8 @@ class NetSession:
         from circuitpython_nrf24l01.network.structs import RF24NetworkHeader
 
         self.world = SimWorld(nradios, True)
+        from harness import rfsession as _rfs
+        _rfs._CUR_WORLD[0] = self.world
         simradio.patch_time(self.world)
         RF24NetworkHeader._RF24NetworkHeader__next_id = 0
         self.closed = closed
@@ -86,12 +88,14 @@ class NetSession:
         def send(buf, ask_no_ack=False, force_retry=0, send_only=False):
             if self.closed:
                 self._run_others()
-            return real_send(buf, ask_no_ack, force_retry, send_only)
+            with self.world.polling():
+                return real_send(buf, ask_no_ack, force_retry, send_only)
 
         def resend(send_only=False):
             if self.closed:
                 self._run_others()
-            return real_resend(send_only)
+            with self.world.polling():
+                return real_resend(send_only)
 
         node._rf24.send = send
         node._rf24.resend = resend
